@@ -23,6 +23,16 @@ func hostBin(name string, a, b *variants.Variant, unsafe bool) (r *variants.Vari
 		}
 		return false
 	}
+	if (a.Type() == variants.Integer || a.Type() == variants.Long) && unsafe && (b.Type() == variants.DateTime || b.Type() == variants.TimeSpan) {
+		// a date-time counts in Unix seconds (the floor for instants before 1970), a time span in whole milliseconds
+		if b.Type() == variants.DateTime {
+			b = variants.VariantFromLong(b.AsDateTime().Unix())
+		} else if b.AsTimeSpan()%time.Millisecond == 0 {
+			b = variants.VariantFromLong(int64(b.AsTimeSpan() / time.Millisecond))
+		} else {
+			return nil, false
+		}
+	}
 	if isNum(a) && b.Type() == variants.String && unsafe {
 		// a string that is a decimal numeral converts to the number it denotes (type-unsafe manager only)
 		s := b.AsString()
@@ -309,7 +319,7 @@ func widePool() []*variants.Variant {
 		variants.VariantFromTimeSpan(time.Duration(math.MaxInt64)), variants.VariantFromTimeSpan(time.Duration(math.MinInt64)), variants.VariantFromTimeSpan(time.Nanosecond), variants.VariantFromTimeSpan(-36 * time.Hour),
 		variants.VariantFromTimeSpan(1<<53 + 1), variants.VariantFromDateTime(time.Unix(1636266600, 0).In(zone("America/New_York"))), variants.VariantFromDateTime(time.Unix(1636266600, 0).UTC()),
 		variants.VariantFromDateTime(time.Unix(1636263000, 999999999).In(zone("Europe/Berlin"))), variants.VariantFromDateTime(time.Date(1, 1, 1, 0, 0, 0, 0, time.UTC)),
-		variants.VariantFromDateTime(time.Date(9999, 12, 31, 23, 59, 59, 0, time.UTC)), variants.VariantFromDateTime(time.Unix(-1, 500)),
+		variants.VariantFromDateTime(time.Date(9999, 12, 31, 23, 59, 59, 0, time.UTC)), variants.VariantFromDateTime(time.Unix(-1, 500)), variants.VariantFromDateTime(time.Unix(-1, 500000000).UTC()), variants.VariantFromDateTime(time.Unix(-86400, 1000000).UTC()),
 		variants.VariantFromBoolean(true), variants.VariantFromBoolean(false), S(""), S("a"), S("A"), S("a\x00"), S("ab"), S("\u00e9"), S("e\u0301"), S("z"), S("\U0001f600"),
 		S("0.5" + strings.Repeat("0", 62)), S(strings.Repeat("0", 80) + "42"), S("3.1415926535897932384626433832795028841971693993751058209749445923078164062"), S("-2.5"), S("17"), S("0.1"),
 		S("9223372036854775807"), S("-9223372036854775808"), S("16777217"), S("123456789.125"), S(strings.Repeat("9", 30)), S("0." + strings.Repeat("0", 70) + "1"),
